@@ -79,4 +79,50 @@ def fairRound (W : World) (σ : Sys) : Sys :=
 
 def bothConnected (σ : Sys) : Bool := σ.c.conn == .connected && σ.s.conn == .connected
 
+/-! ### the closed system with clocks (the handshake deadline)
+
+Each endpoint's run loop owns a retransmission timer (first tick after `dtlsRetransmitFirstSecs`, then
+every `dtlsRetransmitPeriodSecs`) and a deadline `dtlsHandshakeTimeoutSecs` after its start.  `kc` / `ks`
+count the ticks the client / server loop has processed.  The deadline becomes due together with tick
+number `deadlineTicks`; `select!` may take either first, so the deadline action is enabled as soon as
+`deadlineTicks - 1` ticks were processed (an over-approximation: it lets the deadline fire up to one
+period early, never late). -/
+
+def deadlineTicks : Nat :=
+  (dtlsHandshakeTimeoutSecs - dtlsRetransmitFirstSecs) / dtlsRetransmitPeriodSecs + 1
+
+inductive TAct where
+  | net (a : Act)
+  | deadlineC
+  | deadlineS
+deriving DecidableEq, Repr
+
+structure TSys where
+  σ  : Sys
+  kc : Nat
+  ks : Nat
+deriving DecidableEq
+
+def Sys.deadlineC (σ : Sys) : Sys := { σ with c := onDeadline σ.c }
+def Sys.deadlineS (σ : Sys) : Sys := { σ with s := onDeadline σ.s }
+
+def TSys.step (W : World) (D : Nat) (τ : TSys) : TAct → TSys
+  | .net .tickC => { τ with σ := τ.σ.step W .tickC, kc := τ.kc + 1 }
+  | .net .tickS => { τ with σ := τ.σ.step W .tickS, ks := τ.ks + 1 }
+  | .net (.toS i) => { τ with σ := τ.σ.step W (.toS i) }
+  | .net (.toC i) => { τ with σ := τ.σ.step W (.toC i) }
+  | .deadlineC => if D ≤ τ.kc + 1 then { τ with σ := τ.σ.deadlineC } else τ
+  | .deadlineS => if D ≤ τ.ks + 1 then { τ with σ := τ.σ.deadlineS } else τ
+
+def TSys.run (W : World) (D : Nat) (τ : TSys) (acts : List TAct) : TSys := acts.foldl (TSys.step W D) τ
+
+def ticksC (acts : List TAct) : Nat := (acts.filter (· == .net .tickC)).length
+def ticksS (acts : List TAct) : Nat := (acts.filter (· == .net .tickS)).length
+
+/-- the network/timer actions of a timed schedule -/
+def untimed (acts : List TAct) : List Act := acts.filterMap fun a => match a with | .net a => some a | _ => none
+
+/-- a fair round of the timed system: one period passes at both endpoints -/
+def tFairRound (W : World) (τ : TSys) : TSys := ⟨fairRound W τ.σ, τ.kc + 1, τ.ks + 1⟩
+
 end RtcModel.DtlsFlights
